@@ -794,6 +794,21 @@ class Interp:
             if isinstance(v, (sp.Integer, sp.Rational, sp.Float)):
                 return float(v) if not isinstance(v, sp.Integer) else int(v)
             return None
+        def inf_(v):
+            return v in (sp.oo, -sp.oo) or (isinstance(v, float) and v in (float("inf"), float("-inf")))
+        if isinstance(op, (ast.Eq, ast.NotEq)) and (inf_(left) or inf_(right)):
+            l_, r_ = (sp.oo if left == float("inf") else -sp.oo if left == float("-inf") else left) if isinstance(left, float) else left, \
+                     (sp.oo if right == float("inf") else -sp.oo if right == float("-inf") else right) if isinstance(right, float) else right
+            if inf_(l_) and inf_(r_):
+                same = l_ == r_
+            else:
+                other = r_ if inf_(l_) else l_
+                if isinstance(other, (int, float, np.integer, np.floating, sp.Integer, sp.Rational, sp.Float)) or \
+                        (isinstance(other, sp.Basic) and other.is_finite):
+                    same = False
+                else:
+                    raise Undecided("comparison of a symbolic value with infinity")
+            return same if isinstance(op, ast.Eq) else not same
         a, b = num(left), num(right)
         if a is None and b is None and left in self.chain and right in self.chain:
             a, b = self.chain.index(left), self.chain.index(right)
@@ -851,6 +866,12 @@ class Interp:
         if base is None and isinstance(e.value, ast.Name):
             if e.attr == "pi":
                 return sp.pi
+            if e.attr in ("inf", "Inf", "infty", "PINF"):
+                return sp.oo
+            if e.attr in ("NINF",):
+                return -sp.oo
+            if e.attr in ("nan", "NaN", "NAN"):
+                return sp.nan
             return ("np", e.attr)
         if isinstance(base, tuple) and len(base) == 2 and base[0] == "np" and base[1] in ("linalg", "random", "ma"):
             return ("np", f"{base[1]}.{e.attr}")
@@ -1219,10 +1240,19 @@ class Interp:
             v = args[0] if isinstance(args[0], np.ndarray) else _obj_array(args[0])
             lo = kw.get("a_min", kw.get("min", args[1] if len(args) > 1 else None))
             hi = kw.get("a_max", kw.get("max", args[2] if len(args) > 2 else None))
-            if all(isinstance(x, (int, np.integer, sp.Integer)) and not isinstance(x, bool) for x in v.flatten()):
+            if all(isinstance(x, (int, np.integer, sp.Integer)) and not isinstance(x, bool) for x in v.flatten()) and \
+                    all(b_ is None or isinstance(b_, (int, np.integer, sp.Integer)) for b_ in (lo, hi)):
                 return np.clip(np.array([int(x) for x in v.flatten()], dtype=int).reshape(v.shape),
                                None if lo is None else self._int(lo), None if hi is None else self._int(hi))
-            raise Undecided("np.clip of symbolic data")
+            out = np.empty(v.shape, dtype=object)
+            for idx in np.ndindex(v.shape):
+                x = sp.sympify(v[idx])
+                if lo is not None:
+                    x = sp.Max(x, sp.nsimplify(lo) if isinstance(lo, float) else lo)
+                if hi is not None:
+                    x = sp.Min(x, sp.nsimplify(hi) if isinstance(hi, float) else hi)
+                out[idx] = x
+            return out
         if name == "transpose":
             v = args[0] if isinstance(args[0], np.ndarray) else _obj_array(args[0])
             axes = kw.get("axes", args[1] if len(args) > 1 else None)
@@ -1344,8 +1374,38 @@ class Interp:
                 x = v[idx]
                 out[idx] = bool(x is sp.nan or (isinstance(x, sp.Basic) and x.has(sp.nan)) or (isinstance(x, float) and x != x))
             return out if out.shape != () else bool(out[()])
-        if name == "isinf":
-            raise Undecided("np.isinf of symbolic data")
+        if name in ("isinf", "isposinf", "isneginf", "isfinite"):
+            def one(x):
+                if x is sp.nan:
+                    return False
+                if x in (sp.oo, -sp.oo) or (isinstance(x, float) and x in (float("inf"), float("-inf"))):
+                    pos = x == sp.oo or x == float("inf")
+                    return {"isinf": True, "isposinf": pos, "isneginf": not pos, "isfinite": False}[name]
+                if isinstance(x, (int, float, np.integer, np.floating, sp.Integer, sp.Rational, sp.Float)) or \
+                        (isinstance(x, sp.Basic) and x.is_finite):
+                    return name == "isfinite"
+                raise Undecided(f"np.{name} of symbolic data")
+            v = args[0]
+            if isinstance(v, np.ndarray):
+                out = np.empty(v.shape, dtype=bool)
+                for idx in np.ndindex(v.shape):
+                    out[idx] = one(v[idx])
+                return out
+            return one(v)
+        if name == "sign":
+            def sg(x):
+                if x == sp.oo:
+                    return sp.Integer(1)
+                if x == -sp.oo:
+                    return sp.Integer(-1)
+                return sp.sign(x)
+            v = args[0]
+            if isinstance(v, np.ndarray):
+                out = np.empty(v.shape, dtype=object)
+                for idx in np.ndindex(v.shape):
+                    out[idx] = sg(v[idx])
+                return out
+            return sg(v)
         raise Undecided(f"np.{name}")
 
 
